@@ -267,7 +267,12 @@ def run_child(plan, workdir, keeplog=False, timeout=90, gomaxprocs="1"):
         plan["state_out"] = os.path.join(workdir, "state%d.json" % inc)
         with open(pf, "w") as f:
             json.dump(plan, f)
-        env = dict(os.environ, VERIF_PLAN=pf, VERIF_OUT=of, GOMAXPROCS=gomaxprocs, GODEBUG="asyncpreemptoff=1", GOGC=os.environ.get("VERIF_GOGC", "off"))
+        # DBUS_SESSION_BUS_ADDRESS: the pulsar client's keyring dependency asks for the D-Bus session bus in a package
+        # initialiser; with no address in the environment and a `dbus-launch` on the PATH (conda's) every child would start
+        # a dbus-daemon that stays behind - tens of thousands of them exhaust the machine's process ids (vp check 8-10)
+        env = dict(os.environ, VERIF_PLAN=pf, VERIF_OUT=of, GOMAXPROCS=gomaxprocs, GODEBUG="asyncpreemptoff=1", GOGC=os.environ.get("VERIF_GOGC", "off"),
+                   DBUS_SESSION_BUS_ADDRESS="unix:path=/nonexistent/verif-no-session-bus")
+        env.pop("DISPLAY", None)
         if keeplog:
             env["VERIF_KEEPLOG"] = "1"
         try:
